@@ -14,6 +14,7 @@ open Pox Pox.Proto Pox.Checksum Pox.Packet
   {"op":"mutparse","top":…,"layers":[…],"mut":[{"m":"trunc","n":k}|{"m":"set","i":k,"v":b},…]}
       → {"raw":hex,"parsed":[…],"repack":hex}   (model-packed bytes, damaged, parsed: the malformed-input stream)
   {"op":"parse","top":…,"raw":hex} → {"parsed":[…],"repack":hex}
+  {"op":"seq","steps":[request,…]} → {"steps":[answer,…]}
 -/
 
 def optJ : TcpOpt → J
@@ -427,7 +428,7 @@ def cfgOf (j : J) : Except String XCfg :=
   | none => pure XCfg.head
   | some c => do pure ⟨← c.boolean "rip_unsigned", ← c.boolean "eap_body"⟩
 
-def handle (j : J) : Except String J := do
+def handle1 (j : J) : Except String J := do
   let op ← j.string "op"
   if op = "cksum" then
     let d ← j.bytes "data"
@@ -470,5 +471,15 @@ def handle (j : J) : Except String J := do
     let k ← kindOf (← j.string "top")
     pure (J.mk (← parsedAndRepack k (← j.bytes "raw")))
   else throw s!"unknown op {op}"
+
+/-- {"op":"seq","steps":[request,…]} → {"steps":[answer,…]}: the answers a fresh process would give to each request of a call
+history (the model has no state, which is what the history is compared against) -/
+def handle (j : J) : Except String J := do
+  if (← j.string "op") = "seq" then
+    let steps ← j.array "steps"
+    pure (J.mk [("steps", J.arr (steps.map fun s => match handle1 s with
+      | .ok r => r
+      | .error e => J.mk [("error", J.str e)]))])
+  else handle1 j
 
 def main : IO Unit := serve handle
